@@ -421,7 +421,9 @@ func (a *Authenticator) handleSignatureRequest(pkt *Packet, p *Peer) {
 	} else if id.Equal(a.self) {
 		m = &SignatureResponse{Error: "selfAddress"}
 	}
-	p.setID(id)
+	if err == nil {
+		p.setID(id)
+	}
 	a.sendMessage(p2pProtoAuth, p2pProtoAuthSignatureResponse, m, p)
 
 	if m.Error != "" {
